@@ -1349,6 +1349,14 @@ pub fn corpus() -> Vec<Prog> {
         ))),
         Line::Cmd(l1(probe(3, 0))),
     ]);
+    // a shell error inside the EXIT trap action ends the shell with the error status 2
+    // (yash-rs left the stale `$?`; repaired by commit 52e95c4)
+    for st in [0u64, 5] {
+        v.push(vec![
+            Line::Cmd(l1(Cmd::TrapExit(seq(vec![probe(1, st), Cmd::Assign(0, Word::Req(2)), probe(2, 0)])))),
+            Line::Cmd(l1(probe(3, 0))),
+        ]);
+    }
     // assigning an empty expansion makes the variable empty (found by the thorough tier
     // against an early version of the model, which kept the old value)
     v.push(vec![
@@ -1555,7 +1563,7 @@ fn main() {
     // templates x leaves: all of them (thorough) or a sample (quick)
     {
         let mut r = rng.fork(2);
-        let all = exhaustive(&mut r, if args.thorough() { None } else { Some(400) });
+        let all = exhaustive(&mut r, if args.thorough() { None } else { Some(300) });
         for (name, p) in all {
             let vary = r.chance(1, 3);
             let text = render(&p, &mut r, vary);
@@ -1564,7 +1572,7 @@ fn main() {
         }
     }
 
-    let n = args.scale(700, 30000);
+    let n = args.scale(600, 30000);
     for k in 0..n {
         let mut r = rng.fork(k as u64 + 100);
         let size = 4 + r.below(37) as i32;
